@@ -1,7 +1,9 @@
 //! zsim — deterministic simulation with fault injection for KillingSpark/zstd-rs (see /verif/DESIGN.md).
 
+mod c03;
 mod c05;
 mod c06;
+mod c07;
 mod c10;
 mod c11;
 mod content;
@@ -16,7 +18,7 @@ mod walker;
 mod workload;
 mod xxh;
 
-use runner::{check, Engine, Tier};
+use runner::{check, CheckOpts, Engine, Tier};
 use std::path::Path;
 
 #[global_allocator]
@@ -39,8 +41,16 @@ macro_rules! with_engine {
                 let $e = c06::DecodeSim { mode: c06::Mode::C08 };
                 $body
             }
+            "C03" => {
+                let $e = c03::C03;
+                $body
+            }
             "C05" => {
                 let $e = c05::C05;
+                $body
+            }
+            "C07" => {
+                let $e = c07::C07;
                 $body
             }
             "C11" => {
@@ -59,7 +69,7 @@ macro_rules! with_engine {
     };
 }
 
-pub const ALL_ENGINES: &[&str] = &["C05", "C06", "C08", "C10", "C11"];
+pub const ALL_ENGINES: &[&str] = &["C03", "C05", "C06", "C07", "C08", "C10", "C11"];
 
 fn do_replay<E: Engine>(engine: &E, path: &Path) -> i32 {
     match runner::replay(engine, path) {
@@ -105,6 +115,8 @@ fn main() {
     };
     let mut runs: Option<u64> = None;
     let mut evidence = true;
+    let mut opts = CheckOpts::default();
+    let mut fraction: u64 = 1;
     let mut pos = Vec::new();
     let mut i = 1;
     while i < args.len() {
@@ -122,6 +134,24 @@ fn main() {
                 runs = args.get(i).and_then(|s| s.parse().ok());
             }
             "--no-evidence" => evidence = false,
+            "--summary" => {
+                i += 1;
+                opts.summary_out = args.get(i).map(std::path::PathBuf::from);
+            }
+            "--attach" => {
+                i += 1;
+                if let Some((n, p)) = args.get(i).and_then(|s| s.split_once('=')) {
+                    opts.attach.push((n.to_string(), std::path::PathBuf::from(p)));
+                }
+            }
+            "--fraction" => {
+                i += 1;
+                fraction = args.get(i).and_then(|s| s.parse().ok()).unwrap_or(1);
+            }
+            "--build-label" => {
+                i += 1;
+                opts.build_label = args.get(i).cloned().unwrap_or_default();
+            }
             s => pos.push(s.to_string()),
         }
         i += 1;
@@ -129,7 +159,16 @@ fn main() {
     let code = match args[0].as_str() {
         "check" => {
             let Some(id) = pos.first() else { usage() };
-            with_engine!(id.as_str(), e => check(&e, tier, runs, evidence).exit)
+            opts.write_evidence = evidence;
+            with_engine!(id.as_str(), e => {
+                // --fraction n: run 1/n of the tier's (or the requested) number of runs
+                opts.runs = match (runs, fraction) {
+                    (r, 0 | 1) => r,
+                    (Some(r), n) => Some((r / n).max(1)),
+                    (None, n) => Some((e.runs(tier) / n).max(1)),
+                };
+                check(&e, tier, &opts).exit
+            })
         }
         "replay" => {
             let Some(path) = pos.first() else { usage() };
